@@ -101,6 +101,14 @@ func apply(w *vt.Writer, s entities.Set, o op, forcePath string) {
 		default:
 			err = s.AddRecordV2(elems, uint16(o.id))
 		}
+		if path != "adopt" && err == nil && !isTmpl {
+			// the copying paths own their record: the caller refills its scratch slice for the next record
+			for i, ie := range o.ies {
+				if z, zerr := gen.Elem(ie, gen.Zero(ie)); zerr == nil {
+					elems[i] = z
+				}
+			}
+		}
 		ev := vt.Ev{"e": "Add", "path": path, "id": o.id, "fields": absv.FieldsOf(o.ies), "vals": o.vals, "err": err != nil, "valued": o.valued && isTmpl}
 		if int(s.GetNumberOfRecords()) == before+1 {
 			r := s.GetRecords()[before]
